@@ -266,6 +266,50 @@ def check(ctx):
             ctx.guard('R6', fsite(f), r6)
     ctx.count('serialize functions checked for throwing string operations', nser, 11)
 
+    # ---------------------------------------------------------------- R8 comparators are strict
+    # a comparison object handed to std::sort / stable_sort / the binary searches must be a strict weak ordering:
+    # with `<=` equal elements compare "less" in both directions, which is undefined behaviour (libstdc++'s
+    # introsort scans past the end of the range for more than 16 elements with ties at the extremes) - reached only
+    # from the printing modes
+    SORTS = ('sort', 'stable_sort', 'partial_sort', 'nth_element', 'upper_bound', 'lower_bound', 'equal_range',
+             'binary_search', 'merge', 'inplace_merge', 'min_element', 'max_element', 'is_sorted')
+    ncmp = 0
+    for f in functions_behind(p, ['hep::multi_channel_summary', 'hep::multi_channel_weight_info::',
+                                  'hep::minimal_weight_channels', 'hep::make_list_of_ranges']):
+        for nd in f.body.walk():
+            if nd.op != 'call' or (nd.a.get('name') or '') not in SORTS:
+                continue
+            for a_ in nd.k:
+                lam = a_
+                while lam is not None and lam.op in ('cast', 'materialize', 'bindtemp', 'paren', 'construct') and lam.k:
+                    lam = lam.k[0]
+                if lam is None or lam.op != 'lambda':
+                    continue
+                ncmp += 1
+                rets = [x for x in lam.walk() if x.op == 'return' and x.k]
+
+                def strip(x):
+                    while x is not None and x.op in ('cast', 'paren') and x.k:
+                        x = x.k[0]
+                    return x
+                loose = []
+                for r_ in rets:
+                    ex_ = strip(r_.k[0])
+                    o_ = ex_.a.get('o') if ex_.op == 'bin' else (ex_.a.get('opname', '').replace('operator', '')
+                                                                  if ex_.op == 'opcall' else None)
+                    if o_ in ('<=', '>='):
+                        loose.append(o_)
+                    elif ex_.op == 'un' and ex_.a.get('o') == '!' and strip(ex_.k[0]).op == 'bin' and \
+                            strip(ex_.k[0]).a.get('o') in ('<', '>'):
+                        loose.append('!(' + strip(ex_.k[0]).a['o'] + ')')
+                w = '%s:%s' % (nd.where(), f.name)
+                if loose:
+                    ctx.violation('R8.strict_comparator', w, 'the comparison handed to std::%s is `%s`, not a strict weak '
+                                  'ordering: equal elements make the algorithm\'s behaviour undefined (reads past the '
+                                  'range; an exception or a crash in the verbose modes only)' % (nd.a.get('name'), loose[0]))
+                else:
+                    ctx.holds('R8.strict_comparator', w, 'comparison object of std::%s is a strict comparison' % nd.a.get('name'))
+    ctx.count('comparison objects in the reporting code', ncmp, 1)
     # ---------------------------------------------------------------- R7 printing terminates
     # a loop of the reporting code that is not a counting loop must advance a loop-carried position on every
     # path back to its head; `first = std::adjacent_find(first, end, pred)` does not: the algorithm returns its
